@@ -174,3 +174,31 @@ Qed.
 Ltac split_atomic_ifs :=
   repeat match goal with |- context [if ?c then _ else _] =>
     lazymatch c with context [if _ then _ else _] => fail | _ => destruct c end end.
+
+Lemma decodeW_wf w0 w1 : in_u64 w0 -> in_u64 w1 -> wf (decodeW w0 w1).
+Proof. intros H0 H1. rewrite <- decode_words by assumption. apply decode_wf. apply pat_range; assumption. Qed.
+
+Ltac split_ifs_eq :=
+  repeat match goal with |- context [if ?c then _ else _] =>
+    lazymatch c with context [if _ then _ else _] => fail | _ => let E := fresh "E" in destruct c eqn:E end end.
+
+(* walk through an ok_ predicate. Outermost first: a guard `if g then .. else false` (or else (false, ..) inside a merged
+   tuple) is proved by tac from the path conditions kept in the context; other conditions are split with their equation;
+   destructuring lets of calls are opened. *)
+Ltac is_fail b := lazymatch b with false => idtac | (?p, _) => is_fail p end.
+Ltac ok_step tac :=
+  match goal with
+  | |- true = true => reflexivity
+  | |- context [if ?c then _ else ?b] =>
+      lazymatch c with context [if _ then _ else _] => fail | _ => idtac end;
+      first [ is_fail b; let H := fresh "G" in assert (H : c = true) by tac; rewrite H; clear H
+            | let E := fresh "E" in destruct c eqn:E ]
+  | |- context [match ?t with pair _ _ => _ end] =>
+      lazymatch t with
+      | context [if _ then _ else _] => fail
+      | pair _ _ => fail
+      | _ => destruct t
+      end
+  end; cbv beta iota.
+Ltac ok_walk tac := repeat (ok_step tac).
+
